@@ -225,6 +225,9 @@ func (c *Ctx) Finish(fatal error) int {
 	for k, v := range c.Extra {
 		cov[k] = v
 	}
+	if c.Assumptions == nil {
+		c.Assumptions = []string{"none beyond the trusted base"}
+	}
 	ev := map[string]interface{}{
 		"property_id": c.Prop,
 		"tier":        c.Tier,
